@@ -290,6 +290,8 @@ func (r *Runner) Run(scn *Scenario) ([]Line, error) {
 					if info.State != gen.ProcessStateSleep || q.Main+q.System+q.Urgent > 0 {
 						ok = false
 					}
+				} else {
+					ok = false // already out of the process table, its Terminate callback has not run yet
 				}
 			} else if _, err := r.Node.ProcessState(supPid); err == nil {
 				ok = false // still being torn down
